@@ -493,6 +493,16 @@ def parameters(rep, idx, P, sig, icls):
                         ct = get_ctor(idx, sig)
                         st_ = ct.stores.get(f"self._{p}") or ct.stores.get(f"self.{p}")
                         cast = st_ is not None and not st_[1] and st_[0] == ct.parse(f"Shape.cast({p})")
+                        if not cast:
+                            # the value the property hands out, resolved through the constructor (records, renamed attributes, locals)
+                            try:
+                                seen_ = c.norm(c.parse(f"self.{p}"))
+                                cast = seen_ == c.norm(c.parse(f"Shape.cast({p})")) or \
+                                    (st_ is None and ct.t.final_env.get(p) is not None and ct.norm(ct.t.final_env[p]) == ct.parse(f"Shape.cast({p})")
+                                     and any(ct.norm(v_[0]) == ('name', p) or ir.mentions(ct.norm(v_[0]), ct.parse(f"Shape.cast({p})"))
+                                             for v_ in ct.stores.values()))
+                            except Exception:
+                                pass
                         rep.form(cast, "C20.4", eq.site, f"{sig.qual}: signatures whose `{p}` cast to the same Shape are equal",
                                  f"__eq__ compares `{p}` with plain ==, and the constructor stores {ir.show(st_[0])[:80] if st_ else None}",
                                  wrong=None if cast or st_ is None else
